@@ -331,9 +331,9 @@ def _maybe_cast_type(values, newval):
         pass # same kind
     elif values.dtype.kind == 'O':
         pass # or already object
-    elif values.dtype.kind == 'f' and dtype.kind == 'i':
+    elif values.dtype.kind == 'f' and dtype.kind in ('i', 'u'):
         pass # ok
-    elif values.dtype.kind == 'i' and dtype.kind == 'f':
+    elif values.dtype.kind in ('i', 'u') and dtype.kind == 'f':
         values = np.asarray(values, dtype=float)
     elif values.dtype.kind == 'U' and dtype.kind == 'S':
         pass
